@@ -565,6 +565,7 @@ func init() {
 		checkNilContract(p, r, reach)
 		checkBounds(p, r)
 		checkInflateBounded(p, r, reach)
+		checkSideArrays(p, r, reach)
 		// the allow-table entry of tableIter.Next (record kind mismatch = API misuse) holds
 		// only while an iterator is handed a block of the section it was asked for: the
 		// index descent must check the type of the block an index entry (table bytes) leads to
